@@ -198,16 +198,19 @@ func ZZVerifC20Write() { zzWrite(nd.StringUpTo("v", nd.Param("V", 2)), 0, 0, "C2
 
 // ZZVerifC20WriteKeys: the same round trip for keys that need escaping (a
 // leaf key and the name of a nested object drawn from quote, backslash,
-// control character, slash), with a fixed value, through both writers.
+// control character, slash, before and behind each other), with a fixed
+// value, through both writers.
 func ZZVerifC20WriteKeys() {
-	zzWrite("v\"", 1+nd.Choose("leaf-key", 4), 1+nd.Choose("section-key", 3), "C20/writekeys-end")
+	zzWrite("v\"", 1+nd.Choose("leaf-key", 6), 1+nd.Choose("section-key", 3), "C20/writekeys-end")
 }
 
 func zzWrite(v string, leafIdx, sectionIdx int, endLabel string) {
 	for i := 0; i < len(v); i++ {
 		nd.Assume(v[i] < 0x80)
 	}
-	leaf := []string{"a", "\"", "\\", "\n", "/"}[leafIdx]
+	// (the last two sort behind every section name: the nested object is then
+	// written - and read - before an escaped sibling)
+	leaf := []string{"a", "\"", "\\", "\n", "/", "z\\", "~\""}[leafIdx]
 	section := []string{"b", "q\"", "s\\", "t\t"}[sectionIdx]
 	m := map[string]string{leaf: v}
 	nested := nd.Choose("two", 2) == 1
